@@ -91,6 +91,63 @@ def _work_library(job):
     return dict(idx=job["idx"], seq=job["seq"], out=pickle.loads(data) if data else None)
 
 
+_PROBES = []
+
+
+def _work_probe(job):
+    """one process (forked child, one Registry): an optional polluter file, then the probes job['idxs'] one after the other"""
+    import pickle
+    r, w = os.pipe()
+    pid = os.fork()
+    if pid == 0:
+        os.close(r)
+        out = {}
+        try:
+            import observe
+            if job["polluter"]:
+                observe.run_file(C06_FILES[job["polluter"]](), job["polluter"].split("@")[-1])
+            for i in job["idxs"]:
+                name, text = _PROBES[i]
+                o = observe.run_file(text, name)
+                out[i] = (o["status"], bool(o["fatal"]), o["exc"], [tuple(x) for x in o["diags"]])
+        finally:
+            with os.fdopen(w, "wb") as f:
+                pickle.dump(out, f)
+            os._exit(0)
+    os.close(w)
+    with os.fdopen(r, "rb") as f:
+        data = f.read()
+    os.waitpid(pid, 0)
+    return dict(polluter=job["polluter"], idxs=job["idxs"], out=pickle.loads(data) if data else None)
+
+
+def probe_programs(tier):
+    """probes: programs of the seed-0 corpora of Norm.tla / Viol.tla, a few per violation operator (comments in odd places,
+    spacing, declarations ...) and conforming ones, .c and .h -- files whose findings are sensitive to many different helpers"""
+    import normprops
+    import normgen
+    per = 3 if tier == "quick" else 12
+    out = []
+    for kind in ("c", "h"):
+        stats, recs, _ = normprops.sim_corpus("quick", kind, withviol=True, n=3200 if kind == "c" else 320, sd=0)
+        seen = {}
+        for rec in recs:
+            op = rec["viol"]["op"]
+            if seen.get(op, 0) < per:
+                seen[op] = seen.get(op, 0) + 1
+                name, text, _lm = normgen.render(rec, 5)
+                out.append((f"p{len(out)}." + kind, text))
+        stats, recs, _ = normprops.sim_corpus("quick", kind, sd=0)
+        for rec in recs[: (20 if tier == "quick" else 100)]:
+            name, text, _lm = normgen.render(rec, 5)
+            out.append((f"p{len(out)}." + kind, text))
+    # hand-written shapes that sit at the look-ahead helpers (comments between a control statement and its body ...)
+    from corpus import header42
+    out.append(("w1.c", header42("w1.c") + "\nint\tf(char *s)\n{\n\tint\ti;\n\n\ti = 0;\n\twhile (s[i++])\n\t\t// nothing\n\t\t;\n\treturn (i);\n}\n"))
+    out.append(("w2.c", header42("w2.c") + "\nint\tf(int a)\n{\n\tif (a) /* c */\n\t\treturn (1);\n\treturn (0); // d\n}\n"))
+    return out
+
+
 LISTDIR_SCRIPT = r'''
 import os, sys, json, random
 sys.path.insert(0, {repo!r})
@@ -203,6 +260,34 @@ def run_c06(pid, tier):
             R.validated()
             if any(o["reclimit"] != 0 for o in w["out"]):
                 R.soft(f"library session {w['seq']}: process recursion limit changed by {[o['reclimit'] for o in w['out']]}")
+    # probes: a file's findings after ANY other file of the session are its solo findings, for files that exercise many helpers
+    global _PROBES
+    _PROBES = probe_programs(tier)
+    idxs = list(range(len(_PROBES)))
+    pjobs = [dict(polluter=None, idxs=[i]) for i in idxs] + [dict(polluter=n, idxs=idxs) for n in C06_FILES] \
+        + [dict(polluter=None, idxs=idxs), dict(polluter=None, idxs=idxs[::-1])]
+    pres = driverprops.pool_map(_work_probe, pjobs)
+    psolo = {}
+    for w in pres:
+        if w["polluter"] is None and len(w["idxs"]) == 1 and w["out"]:
+            psolo.update(w["out"])
+    for w in pres:
+        if len(w["idxs"]) == 1:
+            continue
+        R.case(("probe-session", w["polluter"], w["idxs"][0]))
+        if not w["out"]:
+            R.violation(dict(kind="history_probe", after=w["polluter"], problem="session died"))
+            continue
+        diff = [i for i in w["idxs"] if i in psolo and w["out"].get(i) != psolo[i]]
+        if diff:
+            i = diff[0]
+            R.violation(dict(kind="history_probe", after=w["polluter"] or ("the probes before it" if w["idxs"][0] == 0 else "the probes before it (reverse order)"),
+                             problem=f"{len(diff)} probe file(s) get other findings than alone; first: {_PROBES[i][0]}",
+                             solo=[list(map(str, x)) for x in psolo[i][3]][:12], in_session=[list(map(str, x)) for x in w["out"][i][3]][:12],
+                             file=_PROBES[i][0], text=_PROBES[i][1]))
+        else:
+            R.validated(len(w["idxs"]))
+    R.cov["probe_files"] = len(_PROBES)
     # listing order
     modes = ["sorted", "reversed"] + [f"shuffle{j}-{R.cov.get('seed', 0)}" for j in range(6 if tier == "quick" else 40)]
     try:
